@@ -28,6 +28,7 @@ type lpPoint struct {
 	RawTS  int64       `json:"raw_ts"`
 	WantUS int64       `json:"want_us"`
 	Line   string      `json:"line"`
+	EscBS  bool        `json:"escaped_backslashes,omitempty"` // see mSchema.EscBS
 }
 
 const special = ", =\"\\"
@@ -185,13 +186,22 @@ var kinds = []string{"float", "int", "uint", "string", "bool"}
 
 // schema of one measurement within a run: a key is a tag or a field of one kind, never both.
 type mSchema struct {
+	// EscBS: names of this schema may hold a backslash anywhere (before a special
+	// character, at the end) and every literal backslash is written as "\\\\" - the
+	// pairwise reading arc's own unescape gives ("\\\\" -> one backslash). Without it names
+	// are restricted to the subset that is unambiguous without escaping backslashes.
+	EscBS  bool
 	Name   string
 	TagKs  []string
 	Fields []lpField // Key+Kind only
 }
 
 func genSchema(r *rand.Rand, rich bool, restrictM bool, idx int) *mSchema {
-	s := &mSchema{}
+	s := &mSchema{EscBS: rich && r.IntN(3) == 0}
+	fixName := fixName
+	if s.EscBS {
+		fixName = func(n string) string { return n }
+	}
 	if restrictM {
 		s.Name = fmt.Sprintf("m%d_%s", idx, genName(r, false, 6))
 	} else {
@@ -230,7 +240,12 @@ func mulFits(raw int64, k int64) bool {
 
 // genPoint draws a point of schema s; rid (if >=0) is added as integer field "rid".
 func genPoint(r *rand.Rand, s *mSchema, precision string, rich bool, rid int64, e2e bool) lpPoint {
-	p := lpPoint{M: s.Name}
+	p := lpPoint{M: s.Name, EscBS: s.EscBS}
+	fixName, mset, kset := fixName, ", ", ",= "
+	if s.EscBS {
+		fixName = func(n string) string { return n }
+		mset, kset = mset+"\\", kset+"\\"
+	}
 	for _, k := range s.TagKs {
 		if r.IntN(4) == 0 {
 			continue // tags are optional per point
@@ -298,19 +313,19 @@ func genPoint(r *rand.Rand, s *mSchema, precision string, rich bool, rid int64, 
 	}
 	// encode
 	var sb strings.Builder
-	sb.WriteString(escName(p.M, ", "))
+	sb.WriteString(escName(p.M, mset))
 	for _, t := range p.Tags {
 		sb.WriteByte(',')
-		sb.WriteString(escName(t[0], ",= "))
+		sb.WriteString(escName(t[0], kset))
 		sb.WriteByte('=')
-		sb.WriteString(escName(t[1], ",= "))
+		sb.WriteString(escName(t[1], kset))
 	}
 	sb.WriteByte(' ')
 	for i, f := range p.Fields {
 		if i > 0 {
 			sb.WriteByte(',')
 		}
-		sb.WriteString(escName(f.Key, ",= "))
+		sb.WriteString(escName(f.Key, kset))
 		sb.WriteByte('=')
 		sb.WriteString(f.Enc)
 	}
@@ -357,6 +372,9 @@ func classify(p lpPoint) string {
 	}
 	if len(parts) == 0 {
 		return "plain"
+	}
+	if p.EscBS {
+		parts = append(parts, "backslashes written as \\\\")
 	}
 	return strings.Join(parts, "+")
 }
